@@ -68,6 +68,9 @@ def enumerate_cases(tier):
                     if ext in OPENABLE and pre != "partial-numbered":
                         yield {"ext": ext, "pre": pre, "nf": nf, "force": force, "via": "open", "path": "abs", "seed": 0}
         yield {"ext": ext, "pre": "same", "nf": 3, "force": False, "via": "read", "path": "abs", "seed": 0}
+        for foreign in ("stale-count", "truncated"):
+            for sd in (0, 1):
+                yield {"ext": ext, "pre": "same", "nf": 3, "force": False, "via": "read", "path": "abs", "seed": sd, "foreign": foreign}
         for via in ("save", "open", "method", "class"):
             if (via == "open" and ext not in OPENABLE) or (via == "class" and ext not in CLASS):
                 continue
@@ -103,12 +106,14 @@ def strategy(draw, tier="quick"):
         via = "save"
     if via == "class" and (ext not in CLASS or pre == "partial-numbered"):
         via = "method"
+    foreign = None
     if via == "read":
         pre = "same"
+        foreign = draw(st.sampled_from([None, "stale-count", "truncated"]))
     nm = "std"
     if via in ("method", "class") and not ext.endswith(".gz"):
         nm = draw(st.sampled_from(NAMES))
-    return {"ext": ext, "name": nm, "nocell": draw(st.integers(0, 2)) == 0, "pre": pre, "nf": nf, "force": draw(st.booleans()), "via": via,
+    return {"ext": ext, "name": nm, "foreign": foreign, "nocell": draw(st.integers(0, 2)) == 0, "pre": pre, "nf": nf, "force": draw(st.booleans()), "via": via,
             "path": draw(st.sampled_from(["abs", "rel", "pathlib"])), "seed": draw(st.integers(0, 5)),
             "na": draw(st.sampled_from([3, 9, 10, 12])), "old_nf": draw(st.integers(1, 15))}
 
@@ -270,6 +275,16 @@ def run_case(case):
                 put(_traj(nf, na, case["seed"], ext, nocell), full)
                 for t in targets[:1] + targets[2:]:
                     os.remove(t)   # only file.2 of file.1..file.N exists
+            if via == "read" and case.get("foreign") and os.path.isfile(full):
+                # a file as another program (or an interrupted run) left it: header frame count out of date, or cut short
+                labels.append("foreign:" + case["foreign"])
+                if case["foreign"] == "stale-count" and ext == "dcd":
+                    with open(full, "r+b") as fh_:
+                        fh_.seek(8)
+                        fh_.write(np.array([old_nf + 3 if case["seed"] % 2 else max(old_nf - 1, 1)], dtype="<i4").tobytes())
+                elif case["foreign"] == "truncated":
+                    with open(full, "r+b") as fh_:
+                        fh_.truncate(max(os.path.getsize(full) - 7, 1))
             before = _snapshot(d)
             path = {"abs": full, "rel": name, "pathlib": pathlib.Path(full)}[case["path"]]
             existing_targets = [t for t in _targets(full, ext, nf) if os.path.lexists(t)]
